@@ -242,7 +242,7 @@ def hist_strategy(kind, tier):
     op = st.fixed_dictionaries({"op": st.sampled_from(["iadd", "isub", "imul", "idiv", "add", "sub", "mul", "div", "copy", "link", "setvalues", "getitem"]),
                                 "form": st.sampled_from(["flat", "list"]), "seed": st.integers(0, 10**6)})
     return st.fixed_dictionaries({"n": st.lists(st.integers(2, 3), min_size=3, max_size=3), "extra": st.sampled_from([0, 1]),
-                                  "ops": st.lists(op, min_size=1, max_size=10)})
+                                  "ops": st.lists(op, min_size=1, max_size=10 if tier == "quick" else 30)})
 
 
 def hist_check(kind, case, rec):
